@@ -55,6 +55,28 @@ def _mode_fns(fx, field):
     return _cache[k]
 
 
+def _mode_fns_ext(fx, field):
+    """_mode_fns plus the functions that branch on a decision value *derived* from the mode and stored (an enum
+    chosen once per file from Config.reflink, matched later by the function that asks for the clone)."""
+    k = ("modefns-ext", id(fx), field)
+    if k in _cache:
+        return _cache[k]
+    out = set(_mode_fns(fx, field))
+    if field == "reflink":
+        import p_kinds
+        der = p_kinds.derived_decisions(fx, field, p_kinds.REFLINK_ADT)
+        if der:
+            for p, f in fx.fns.items():
+                if p in out or f.from_expansion or f.is_closure or f.crate != "libxcp":
+                    continue
+                for T in der:
+                    if p_kinds.type_variant_switches(f, T) or p_kinds.enum_eq_edges_ty(f, T):
+                        out.add(p)
+                        break
+    _cache[k] = sorted(out)
+    return _cache[k]
+
+
 def _returns_bool(f):
     """The function answers a yes/no question: a bool, or a workspace enum of two field-less variants
     (`ReflinkOutcome::{Cloned, NotCloned}`), possibly inside a Result."""
@@ -93,7 +115,7 @@ def stop_set(fx):
     # (the backup decision is *not* a boundary: its rules assume a mode and prune the inlined code instead)
     cg_ = q.callgraph(fx)
     for fld in ("reflink",):
-        cands = [p_ for p_ in _mode_fns(fx, fld) if _returns_bool(fx.fns[p_])]
+        cands = [p_ for p_ in _mode_fns_ext(fx, fld) if _returns_bool(fx.fns[p_])]
         for p_ in cands:
             # only the outermost decision function is a boundary; helpers it delegates part of the decision to
             # (`reflink_unsupported()`) are inlined into its view
@@ -147,7 +169,7 @@ def backup_mode_fn(fx):
 
 
 def reflink_mode_fn(fx):
-    c = [p for p in _mode_fns(fx, "reflink") if fx.fns[p].crate == "libxcp" and _returns_bool(fx.fns[p])]
+    c = [p for p in _mode_fns_ext(fx, "reflink") if fx.fns[p].crate == "libxcp" and _returns_bool(fx.fns[p])]
     return c[0] if c else None
 
 
